@@ -1390,7 +1390,38 @@ class Interp:
 
     LOOP_BOUND = 64
 
+    def exec_while_invariant(self, st, fr, spec):
+        """`while c: body` by an inductive invariant (partial correctness; termination arguments are separate ghost
+        obligations of the contract):   Inv on entry [obligation];  Inv and c {body} Inv [obligation];  afterwards Inv and
+        not c.  Variables assigned in the body are havocked by the generators of the spec."""
+        if st.orelse:
+            raise Unsupported("while/else with an invariant")
+        assigned = _assigned_names(st.body)
+        missing = assigned - set(spec.havoc) - {n for n in assigned if n not in fr.locals}
+        if missing:
+            raise Unsupported(f"loop invariant does not say how to havoc {sorted(missing)}")
+        self._loop_check(f"{fr.qualname} loop invariant holds on entry", spec.inv(self, fr.locals, None))
+        for name, gen in spec.havoc.items():
+            if len(inspect.signature(gen).parameters) >= 2:
+                fr.locals[name] = gen(self, fr.locals.get(name))
+            else:
+                fr.locals[name] = gen(self)
+        self.assume(_b(spec.inv(self, fr.locals, None)))
+        if not self.is_true(self.eval(st.test, fr)):
+            return                                   # continuation: invariant and negated condition
+        try:
+            self.exec_block(st.body, fr)
+        except _Break:
+            return
+        except _Continue:
+            pass
+        self._loop_check(f"{fr.qualname} loop invariant preserved", spec.inv(self, fr.locals, None))
+        raise Infeasible()
+
     def exec_while(self, st, fr):
+        spec = self.loop_specs.get((fr.qualname, self._loop_ordinal(fr, st)))
+        if spec is not None:
+            return self.exec_while_invariant(st, fr, spec)
         n = 0
         while self.is_true(self.eval(st.test, fr)):
             n += 1
@@ -1527,6 +1558,8 @@ class Interp:
         return STuple([self.eval(e, fr) for e in node.elts])
 
     def e_List(self, node, fr):
+        if not node.elts and getattr(self, "empty_list_hook", None) is not None:
+            return self.empty_list_hook()
         out = []
         for e in node.elts:
             if isinstance(e, ast.Starred):
